@@ -276,6 +276,15 @@ let () =
     incr diverged; dead := true;
     Printf.fprintf oc "DIVERGE %s step=%d what=%s | ev=%s | impl=%s | model=%s\n" !cur_seed !steps what ev impl model;
     List.iter (fun e -> Printf.fprintf oc "  EV %s\n" e) (List.rev !evlog) in
+  (* a gauge-only divergence (same messages, same closed connections, different counters) is recorded
+     but the history goes on WITHOUT further gauge comparisons: what clients see later (e.g. a
+     registry that still holds an object of a connection that is gone) belongs to other properties
+     and is reported when it shows in the messages *)
+  let gauges_off = ref false in
+  let report_soft what ev impl model =
+    incr diverged; gauges_off := true;
+    Printf.fprintf oc "DIVERGE %s step=%d what=%s | ev=%s | impl=%s | model=%s\n" !cur_seed !steps what ev impl model;
+    List.iter (fun e -> Printf.fprintf oc "  EV %s\n" e) (List.rev !evlog) in
   let finish_step () =
     match !cur_ev with
     | None -> ()
@@ -306,6 +315,15 @@ let () =
           if !dead then raise Exit;
           let before = List.map int_of_n (conn_ids !state) in
           (match step !state p.ev p.fresh p.bserial with
+           | Panic site when int_of_n site = 20
+                             && (match p.ev with Message (_, (CallFunction _ | CallFunction2 _)) -> true | _ -> false) ->
+               (* call_impl: the serial SerialMap::insert chose (read off the callee's trace) is not the
+                  one the model's allocator sm_choice (Broker/Model.v) picks in this state *)
+               let expected = (match sm_choice !state with
+                 | Some (b, _) -> string_of_int (int_of_n b) | None -> "none(2^32-calls-pending)") in
+               let observed = (match p.bserial with Some b -> string_of_int (int_of_n b) | None -> "unobserved") in
+               report (Printf.sprintf "C02:broker-serial-differs-from-SerialMap-model(expected-%s,implementation-chose-%s)" expected observed)
+                 line (String.concat "; " (List.map (fun (c, t) -> Printf.sprintf "%d:%s" c t) !obs_outs)) "-"
            | Panic site ->
                report (Printf.sprintf "C11+%s:model-panic-site-%d(the-implementation-reached-a-state-the-model-calls-inconsistent)" (class_of_event line) (int_of_n site))
                  line (String.concat "; " (List.map (fun (c, t) -> Printf.sprintf "%d:%s" c t) !obs_outs)) "-"
@@ -363,11 +381,11 @@ let () =
                    let truth = Printf.sprintf "%d %d %d %d %d" (int_of_nat (map_size_conns st'))
                        (int_of_nat (map_size_objs st')) (int_of_nat (map_size_svcs st'))
                        (int_of_nat (map_size_chans st')) (int_of_nat (map_size_lis st')) in
-                   if !obs_stats <> "-" && !obs_stats <> ms then
-                     report "C09:gauges-differ-from-model-gauges" line !obs_stats ms
-                   else if !obs_stats <> "-" && !obs_stats <> truth then
+                   if not !gauges_off && !obs_stats <> "-" && !obs_stats <> ms then
+                     report_soft "C09:gauges-differ-from-model-gauges" line !obs_stats ms
+                   else if not !gauges_off && !obs_stats <> "-" && !obs_stats <> truth then
                      (* the property itself: gauges = true numbers of live entities *)
-                     report "C09:gauges-differ-from-true-counts" line !obs_stats truth
+                     report_soft "C09:gauges-differ-from-true-counts" line !obs_stats truth
                    else begin
                      let mex = if exits st' then "1" else "0" in
                      if !obs_exit <> mex then report "C09:exit-flag-differs" line !obs_exit mex
@@ -386,7 +404,7 @@ let () =
       let len = String.length line in
       if len >= 5 && String.sub line 0 5 = "HIST " then begin
         cur_seed := String.sub line 5 (len - 5);
-        state := init; Hashtbl.reset dropped; Hashtbl.reset vers; evlog := []; dead := false; steps := 0; incr histories
+        state := init; Hashtbl.reset dropped; Hashtbl.reset vers; gauges_off := false; evlog := []; dead := false; steps := 0; incr histories
       end else if len >= 3 && String.sub line 0 3 = "EV " then begin
         cur_ev := Some (String.sub line 3 (len - 3)); obs_outs := []; obs_closed := []; obs_stats := ""; obs_exit := ""
       end else if len >= 4 && String.sub line 0 4 = "OUT " then begin
@@ -408,10 +426,20 @@ let () =
           report (Printf.sprintf "C11+%s:implementation-panic" (class_of_event e)) e line "-";
           cur_ev := None
         end
+      end else if len >= 8 && String.sub line 0 8 = "MONITOR " then begin
+        (* a property monitor of the harness on the implementation alone: "MONITOR <classes> <what>",
+           written just before the EV line of the step it belongs to *)
+        if not !dead then begin
+          let rest = String.sub line 8 (len - 8) in
+          let i = (try String.index rest ' ' with Not_found -> String.length rest) in
+          let cls = String.sub rest 0 i in
+          let what = if i < String.length rest then String.sub rest (i + 1) (String.length rest - i - 1) else "" in
+          report (cls ^ ":" ^ what) (match !evlog with e :: _ -> e | [] -> "-") line "-"
+        end
       end else if len >= 13 && String.sub line 0 13 = "HARNESS-ERROR" then begin
         if not !dead then report "HARNESS" "-" line "-"
       end else if line = "HISTEND" then begin
-        if not !dead then Printf.fprintf oc "OK %s steps=%d\n" !cur_seed !steps
+        if not !dead && not !gauges_off then Printf.fprintf oc "OK %s steps=%d\n" !cur_seed !steps
       end
     done
   with End_of_file -> ());
